@@ -247,7 +247,8 @@ def progress_flag(repo: Repo) -> RuleRun:
     if not loops:
         fors = [n for n in fn.node.body if isinstance(n, ast.For) and isinstance(n.iter, ast.Call) and attr_chain(n.iter.func) == "range"]
         r.require(bool(fors), "propagate_gradings: neither a while fix-point loop nor a bounded for loop found")
-        r.ok(fn, "bounded for-loop over a finite range", key="loop")
+        r.ok(fn, "bounded for-loop over a finite range (termination is structural; completeness is decided by C02.FIXPOINT-SCHEDULES)", key="loop")
+        r.floor = 1
         return r
     r.require(len(loops) == 1, "propagate_gradings: exactly one while loop expected")
     loop = loops[0]
@@ -319,6 +320,113 @@ progress_flag.rule_id = "C02.PROGRESS-FLAG"
 
 
 # --------------------------------------------------------------------------------------------
+# --------------------------------------------------------------------------------------------
+def fixpoint_schedules(repo: Repo) -> RuleRun:
+    """Abstract run of BlockList.propagate_gradings (with the real Block/Axis methods below it) over every insertion
+    order of a small chain of blocks. Only the wire managers are abstracted: a manager is 'defined' once it was
+    graded while holding chops. Nothing of the library is executed; the repository's ASTs are interpreted."""
+    import itertools
+
+    from ..peval import NO_MATCH, Evaluator, NotEvaluable, Obj, Raised
+
+    r = RuleRun(PROP, "C02.FIXPOINT-SCHEDULES", floor=60, what="propagate_gradings on a 4-block chain, all 24 insertion orders x chop placements: every well-posed family is completed, an ill-posed one raises UndefinedGradingsError, within a step budget")
+    fn = repo.func("lists.block_list.BlockList.propagate_gradings")
+    block_cls, axis_cls, bl_cls = repo.cls("items.block.Block"), repo.cls("items.wires.axis.Axis"), repo.cls("lists.block_list.BlockList")
+    n = 4
+
+    def hook(ev, call: ast.Call, name):
+        f = call.func
+        if isinstance(f, ast.Attribute) and f.attr in ("is_aligned",):
+            return True
+        if isinstance(f, ast.Attribute) and f.attr == "copy_preserving":
+            return ev.eval(f.value)
+        if isinstance(f, ast.Attribute) and f.attr in ("grade", "add_chop"):
+            recv = ev.eval(f.value)
+            if isinstance(recv, Obj) and recv._cls is None and recv.has("chops"):
+                if f.attr == "add_chop":
+                    recv.get("chops").append(ev.eval(call.args[0]))
+                else:
+                    recv.set("is_defined", len(recv.get("chops")) > 0)
+                    recv.set("graded", recv.get("graded") + 1)
+                return None
+        return NO_MATCH
+
+    def build(order, chopped, links):
+        """order: insertion order of chain positions; chopped[a] = set of positions holding a user chop on axis a;
+        links = set of (p, p+1) pairs that are connected"""
+        axes_by_pos = {}
+        blocks = []
+        for p in order:
+            axes = []
+            for a in range(3):
+                mgr = Obj(f"mgr_p{p}a{a}")
+                has = p in chopped[a]
+                mgr.set("chops", [Obj(f"chop_p{p}a{a}")] if has else [])
+                mgr.set("is_defined", has)
+                mgr.set("graded", 0)
+                mgr.set("count", 0)
+                ax = Obj(f"axis_p{p}a{a}", cls=axis_cls)
+                ax.set("index", a)
+                ax.set("wires", mgr)
+                ax.set("neighbours", [])
+                axes.append(ax)
+            axes_by_pos[p] = axes
+            blk = Obj(f"block_p{p}", cls=block_cls)
+            blk.set("axes", axes)
+            blocks.append(blk)
+        for p, q in links:
+            for a in range(3):
+                axes_by_pos[p][a].get("neighbours").append(axes_by_pos[q][a])
+                axes_by_pos[q][a].get("neighbours").append(axes_by_pos[p][a])
+        bl = Obj("block_list", cls=bl_cls)
+        bl.set("blocks", blocks)
+        return bl, axes_by_pos
+
+    def run(label, order, chopped, links, well_posed: bool):
+        bl, axes_by_pos = build(order, chopped, links)
+        ev = Evaluator(repo=repo, module=fn.module, call_hook=hook, max_steps=60000)
+        got = None
+        try:
+            ev.call_funcinfo(fn, [bl])
+        except Raised as err:
+            got = err.exc_name
+        except NotEvaluable as err:
+            if "budget" in str(err):
+                got = "<no termination within the step budget>"
+            else:
+                raise AnalysisError(f"propagate_gradings not evaluable on the schedule model: {err}") from err
+        key = f"schedule:{label}"
+        if well_posed:
+            undefined = [f"position {p} axis {a}" for p, axes in sorted(axes_by_pos.items()) for a, ax in enumerate(axes) if not ax.get("wires").get("is_defined")]
+            ok = got is None and not undefined
+            r.check(
+                ok,
+                fn,
+                f"{label}: completed",
+                f"propagate_gradings, {label}: " + (f"ends with {got} although every family has a chopped member" if got else f"returns normally but leaves {undefined[:3]} undefined") + " - the outcome depends on the insertion order",
+                fn.node,
+                key=key,
+            )
+        else:
+            ok = got is not None and got.endswith("UndefinedGradingsError")
+            r.check(ok, fn, f"{label}: refused with UndefinedGradingsError", f"propagate_gradings, {label}: {'returns normally' if got is None else 'ends with ' + got} although a family has no chopped member (a partial dictionary would be written)", fn.node, key=key)
+
+    chain = {(p, p + 1) for p in range(n - 1)}
+    everything = lambda pos: [{pos}, {pos}, {pos}]  # noqa: E731
+    for order in itertools.permutations(range(n)):
+        for pos in (0, 1, 3):
+            run(f"order {order}, all chops on position {pos}", order, everything(pos), chain, True)
+    for order in [(0, 1, 2, 3), (3, 2, 1, 0), (0, 2, 1, 3), (1, 3, 0, 2), (2, 0, 3, 1)]:
+        run(f"order {order}, axis chops on positions 0/3/1", order, [{0}, {3}, {1}], chain, True)
+        run(f"order {order}, axis chops on positions 3/3/0 and 0/1/2", order, [{3, 0}, {3, 1}, {0, 2}], chain, True)
+        run(f"order {order}, axis 1 never chopped", order, [{0}, set(), {2}], chain, False)
+        run(f"order {order}, positions 2-3 detached and unchopped", order, everything(0), {(0, 1), (2, 3)}, False)
+    return r
+
+
+fixpoint_schedules.rule_id = "C02.FIXPOINT-SCHEDULES"
+
+
 def undefined_raises(repo: Repo) -> RuleRun:
     r = RuleRun(PROP, "C02.UNDEFINED-RAISES", floor=2, what="normal exit of propagate_gradings only with an empty worklist; otherwise UndefinedGradingsError")
     fn = repo.func("lists.block_list.BlockList.propagate_gradings")
@@ -375,4 +483,27 @@ def grade_before_write(repo: Repo) -> RuleRun:
 
 grade_before_write.rule_id = "C02.GRADE-BEFORE-WRITE"
 
-RULES = [set_order, progress_flag, undefined_raises, grade_before_write, det_sources, neighbour_symmetry]
+def copy_carries_count(repo: Repo) -> RuleRun:
+    """'the same counts whatever the corner numbering of the neighbour': the aligned / anti-aligned copy of chops and
+    wire gradings (the rule of C04.ALIGNMENT-BRANCH) - an anti-aligned copy that loses the resolved count makes the outcome
+    depend on the numbering."""
+    from ..report import rebrand
+    from . import c04
+
+    return rebrand(c04.alignment_branch(repo), PROP, "C02.COPY-CARRIES-COUNT")
+
+
+copy_carries_count.rule_id = "C02.COPY-CARRIES-COUNT"
+
+
+def no_spurious_conflict(repo: Repo) -> RuleRun:
+    """'every well-posed family is written': the consistency check (the rule of C01.CONSISTENCY-REACH) refuses exactly the
+    models with different total counts - an anti-aligned multigraded neighbour with the same total is accepted."""
+    from ..report import rebrand
+
+    return rebrand(c01.consistency_reach(repo), PROP, "C02.CONSISTENCY-EXACT")
+
+
+no_spurious_conflict.rule_id = "C02.CONSISTENCY-EXACT"
+
+RULES = [set_order, progress_flag, fixpoint_schedules, copy_carries_count, no_spurious_conflict, undefined_raises, grade_before_write, det_sources, neighbour_symmetry]
